@@ -879,3 +879,377 @@ func snapshotWideRound(w *W, idx int) {
 		w.Sample(map[string]any{"round": idx, "writers_and_blocks": writers, "commits_per_writer": per, "snapshots": len(snaps), "snapshot_bytes_total": bytesTotal})
 	}
 }
+
+// ---------------------------------------------------------------------------------------------
+// C06 / C11: Count() after marker commits (inserts/deletes) that overlap in different blocks.
+// The row count is collection-wide state maintained by every commit that carries row markers
+// and by every rollback; commits of different blocks do not exclude each other. Forced part:
+// a trigger callback runs while commit A (a delete in block 0) is cleaning up its columns, and
+// performs, on the same goroutine, another client's whole transaction B that touches block 1
+// only (a delete, or an insert that rolls back) - B cannot be ordered behind A by any latch.
+// Free part: pairs of such transactions started together on two goroutines.
+// After each pair: Count() == rows visited by Range == Count() of a replica fed the stream.
+
+func countRound(w *W, idx int) {
+	caseID := fmt.Sprintf("E3:count:round%d", idx)
+	w.Begin(idx, caseID)
+	lg := &recLogger{}
+	mk := func(wr commit.Logger) *column.Collection {
+		o := column.Options{Capacity: 64, Vacuum: 1 << 40}
+		if wr != nil {
+			o.Writer = wr
+		}
+		c := column.NewCollection(o)
+		for i := 0; i < 10; i++ {
+			c.CreateColumn(fmt.Sprintf("c%d", i), column.ForInt64())
+		}
+		c.CreateColumn("s", column.ForString())
+		c.CreateColumn("b", column.ForBool())
+		return c
+	}
+	P, R := mk(lg), mk(nil)
+	defer P.Close()
+	defer R.Close()
+	// block 0 holds 30 rows, blocks 1 and 2 hold 8 000 each: with ~16 000 rows the insert path looks for a
+	// free offset below offset 16 030, i.e. in block 0, whatever is freed in blocks 1 and 2
+	const perBlock = 8000
+	for _, c := range []*column.Collection{P, R} {
+		for blk := uint32(0); blk < 3; blk++ {
+			mkb := func(name string) *commit.Buffer { b := commit.NewBuffer(64); b.Reset(name); return b }
+			rb, vb := mkb("row"), mkb("c0")
+			n := uint32(perBlock)
+			if blk == 0 {
+				n = 30
+			}
+			for i := uint32(0); i < n; i++ {
+				rb.PutOperation(commit.Insert, blk<<14+i)
+				vb.PutInt64(commit.Put, blk<<14+i, int64(i))
+			}
+			if err := c.Replay(commit.Commit{ID: 1, Chunk: commit.Chunk(blk), Updates: []*commit.Buffer{rb, vb}}); err != nil {
+				panic(err)
+			}
+		}
+	}
+	next := [3]uint32{} // next victim per block
+	victim := func(blk uint32) uint32 { next[blk]++; return blk<<14 + next[blk] - 1 }
+	var other func()
+	var ordered int64
+	P.CreateTrigger("tg", "c0", func(r column.Reader) {
+		if r.IsDelete() && r.Index()>>14 == 1 && other != nil {
+			f := other
+			other = nil
+			done := make(chan struct{})
+			go func() { defer close(done); f() }()
+			select {
+			case <-done:
+			case <-time.After(3 * time.Second):
+				ordered++ // B waits for something A holds: it is ordered behind A, nothing to judge
+			}
+		}
+	})
+	fail := func(detail string) {
+		w.Violate(idx, caseID, detail, "", map[string]any{"idx": idx})
+	}
+	check := func(what string) bool {
+		rows := 0
+		P.Query(func(txn *column.Txn) error { return txn.Range(func(uint32) { rows++ }) })
+		for _, cm := range lg.take() {
+			if err := R.Replay(cm); err != nil {
+				fail(what + ": Replay failed: " + err.Error())
+				return false
+			}
+		}
+		if n := P.Count(); n != rows || R.Count() != rows {
+			fail(fmt.Sprintf("%s: primary Count()=%d, Range visits %d rows, replica Count()=%d", what, n, rows, R.Count()))
+			return false
+		}
+		return true
+	}
+	var landed [3]int64
+	bDelete := func() { P.DeleteAt(victim(2)) }
+	bInsert := func(abort bool) func() {
+		return func() {
+			P.Query(func(txn *column.Txn) error {
+				off, _ := txn.Insert(func(r column.Row) error { r.SetInt64("c0", 1); return nil })
+				if off>>14 < 3 {
+					atomic.AddInt64(&landed[off>>14], 1)
+				}
+				if abort {
+					return errAbort
+				}
+				return nil
+			})
+		}
+	}
+	forced := int64(0)
+	kinds := []struct {
+		desc string
+		fn   func()
+	}{{"delete in block 2", bDelete}, {"insert into block 0 that rolls back", bInsert(true)}, {"insert into block 0", bInsert(false)}}
+	for i := 0; i < 90; i++ {
+		k := kinds[i%3]
+		other = k.fn
+		P.DeleteAt(victim(1))
+		if other != nil {
+			fail("the trigger on c0 was not called for a row delete")
+			return
+		}
+		forced++
+		if !check(fmt.Sprintf("commit A deletes a row of block 1; while A cleans up its columns another client's transaction B (%s) runs to completion", k.desc)) {
+			return
+		}
+	}
+	P.DropTrigger("tg")
+	pairs := int64(0)
+	n := 3000
+	if w.Thorough() {
+		n = 7000
+	}
+	for i := 0; i < n; i++ {
+		if next[1] >= perBlock-2 || next[2] >= perBlock-2 {
+			break
+		}
+		start := make(chan struct{})
+		a := victim(1)
+		b := kinds[i%3].fn
+		var wg sync.WaitGroup
+		wg.Add(2)
+		go func() { defer wg.Done(); <-start; P.DeleteAt(a) }()
+		go func() { defer wg.Done(); <-start; b() }()
+		close(start)
+		wg.Wait()
+		pairs++
+		if !check("two clients commit row markers to different blocks at the same time (" + kinds[i%3].desc + " beside a delete in block 1)") {
+			return
+		}
+	}
+	w.Stat("forced_marker_commit_overlaps", forced-ordered)
+	w.Stat("forced_overlaps_where_B_had_to_wait_for_A", ordered)
+	w.Stat("concurrent_marker_commit_pairs", pairs)
+	w.Stat("count_comparisons", forced+pairs)
+	w.Stat("inserts_landed_in_block_0", landed[0])
+	w.Stat("inserts_landed_in_block_1_or_2", landed[1]+landed[2])
+	w.Eval(hashOf("count", idx), forced-ordered > 0 && pairs > 0)
+}
+
+// ---------------------------------------------------------------------------------------------
+// C02: a snapshot taken beside committing writers never contains half of a transaction's changes
+// to a row. Writers stamp one tag into six columns of a row (one block, so one commit); a
+// snapshot loop runs beside them; every snapshot is restored and every target row judged.
+
+func tornSnapshotRound(w *W, idx int) {
+	caseID := fmt.Sprintf("E3:torn-snapshot:round%d", idx)
+	w.Begin(idx, caseID)
+	c := stressCollection(64, false)
+	defer c.Close()
+	var targets []uint32
+	for blk := uint32(0); blk < 3; blk++ {
+		mkb := func(name string) *commit.Buffer { b := commit.NewBuffer(64); b.Reset(name); return b }
+		rb, vb := mkb("row"), mkb("m")
+		for i := uint32(0); i < 8; i++ {
+			off := blk<<14 + i*37
+			rb.PutOperation(commit.Insert, off)
+			vb.PutInt64(commit.Put, off, 0)
+			targets = append(targets, off)
+		}
+		if err := c.Replay(commit.Commit{ID: 1, Chunk: commit.Chunk(blk), Updates: []*commit.Buffer{rb, vb}}); err != nil {
+			panic(err)
+		}
+	}
+	c.Query(func(txn *column.Txn) error {
+		for _, t := range targets {
+			txn.QueryAt(t, func(r column.Row) error { writeTag(r, 0); return nil })
+		}
+		return nil
+	})
+	hook := &stressHook{delayPct: 30, seed: w.Seed + int64(idx)}
+	hook.install(c)
+	defer hook.remove()
+	const writers = 6
+	txnsPer := 3000
+	if w.Thorough() {
+		txnsPer = 12000
+	}
+	var left int32 = writers
+	var fns []func()
+	for wi := 0; wi < writers; wi++ {
+		wi := wi
+		fns = append(fns, func() {
+			defer atomic.AddInt32(&left, -1)
+			r := rngFor(w.Seed, 41, idx, wi)
+			for n := 1; n <= txnsPer; n++ {
+				tag := int64(wi+1)<<40 | int64(n)
+				rollback := r.Intn(10) == 0
+				if rollback {
+					tag |= poison
+				}
+				t := targets[r.Intn(len(targets))]
+				c.Query(func(txn *column.Txn) error {
+					txn.QueryAt(t, func(row column.Row) error { writeTag(row, tag); return nil })
+					if rollback {
+						return errAbort
+					}
+					return nil
+				})
+			}
+		})
+	}
+	var snaps, overlapping, rowsJudged int64
+	var bad string
+	fns = append(fns, func() {
+		for atomic.LoadInt32(&left) > 0 && bad == "" {
+			var buf bytes.Buffer
+			before := atomic.LoadInt64(&hook.commits)
+			if err := c.Snapshot(&buf); err != nil {
+				bad = "Snapshot beside writers failed: " + err.Error()
+				return
+			}
+			if atomic.LoadInt64(&hook.commits) > before {
+				overlapping++
+			}
+			snaps++
+			o := stressCollection(64, false)
+			if err := o.Restore(bytes.NewReader(buf.Bytes())); err != nil {
+				bad = "Restore of a snapshot taken beside writers failed: " + err.Error()
+				o.Close()
+				return
+			}
+			for _, t := range targets {
+				o.QueryAt(t, func(row column.Row) error {
+					rowsJudged++
+					if _, b := readTag(row); b != "" && bad == "" {
+						bad = fmt.Sprintf("snapshot %d, restored: %s", snaps, b)
+					}
+					return nil
+				})
+			}
+			o.Close()
+		}
+	})
+	parallel(fns...)
+	w.Stat("snapshots_beside_writers", snaps)
+	w.Stat("snapshots_overlapping_commits", overlapping)
+	w.Stat("restored_rows_judged", rowsJudged)
+	w.Stat("writer_transactions", int64(writers*txnsPer))
+	w.Eval(hashOf("torn-snapshot", idx, snaps/10), snaps > 5 && overlapping > 0)
+	if bad != "" {
+		w.Violate(idx, caseID, "[torn-snapshot] "+bad, "", map[string]any{"idx": idx})
+	}
+}
+
+// ---------------------------------------------------------------------------------------------
+// C10: writers beside a collection that grows into new blocks. Every growth re-allocates column
+// storage (bool columns and indexes are one bitmap for all blocks); an update applied while the
+// storage is being re-allocated must not be lost. Each writer owns its rows (nobody else writes
+// them) and reads a row back right after its own commit, so no read races with anything: the
+// row must show exactly the tag just committed, in all six columns.
+
+func growRound(w *W, idx int) {
+	caseID := fmt.Sprintf("E3:grow-beside-writers:round%d", idx)
+	w.Begin(idx, caseID)
+	var readbacks, growths, lost, txns int64
+	var first atomic.Value
+	subs := 4
+	if w.Thorough() {
+		subs = 12
+	}
+	bools := []string{"x0", "x1", "x2", "x3", "x4", "x5", "x6", "x7"}
+	for sub := 0; sub < subs; sub++ {
+		c := column.NewCollection(column.Options{Capacity: 1000, Vacuum: 1 << 40})
+		c.CreateColumn("a", column.ForInt64())
+		c.CreateColumn("m", column.ForInt64())
+		for _, xb := range bools {
+			c.CreateColumn(xb, column.ForBool())
+		}
+		// eight bitmap indexes on a: the apply of an index evaluates its predicate per row and so takes
+		// the longest - the best chance for a re-allocation of that index to fall into it
+		idxs := []string{"odd0", "odd1", "odd2", "odd3", "odd4", "odd5", "odd6", "odd7"}
+		for _, ix := range idxs {
+			c.CreateIndex(ix, "a", func(r column.Reader) bool { return r.Int()&1 == 1 })
+		}
+		// large transactions (every row a writer owns): the apply of one column takes long enough
+		// for a re-allocation of that column's storage to fall into it
+		const writers, own = 4, 1500
+		c.Query(func(txn *column.Txn) error {
+			for i := 0; i < 16384; i++ {
+				txn.Insert(func(r column.Row) error { r.SetInt64("m", 0); return nil })
+			}
+			return nil
+		})
+		var done int32
+		var fns []func()
+		for wi := 0; wi < writers; wi++ {
+			wi := wi
+			fns = append(fns, func() {
+				for n := 1; atomic.LoadInt32(&done) == 0; n++ {
+					tag := int64(wi+1)<<40 | int64(n)
+					odd := tag&1 == 1
+					c.Query(func(txn *column.Txn) error {
+						for i := 0; i < own; i++ {
+							txn.QueryAt(uint32(wi*own+i), func(rw column.Row) error {
+								rw.SetInt64("a", tag)
+								for _, xb := range bools {
+									rw.SetBool(xb, odd)
+								}
+								return nil
+							})
+						}
+						return nil
+					})
+					atomic.AddInt64(&txns, 1)
+					c.Query(func(txn *column.Txn) error {
+						for i := n % 3; i < own; i += 3 { // every third row: a lost stretch of an apply is hundreds of rows long
+							row := uint32(wi*own + i)
+							txn.QueryAt(row, func(rw column.Row) error {
+								atomic.AddInt64(&readbacks, 1)
+								bad := ""
+								if got, ok := rw.Int64("a"); !ok || got != tag {
+									bad = fmt.Sprintf("a reads (%d,%v)", got, ok)
+								}
+								for _, xb := range bools {
+									if bad == "" && rw.Bool(xb) != odd {
+										bad = fmt.Sprintf("bool column %s reads %v", xb, rw.Bool(xb))
+									}
+								}
+								for _, ix := range idxs {
+									if bad == "" && rw.Bool(ix) != odd {
+										bad = fmt.Sprintf("index %s (a is odd) reads %v", ix, rw.Bool(ix))
+									}
+								}
+								if bad != "" && atomic.AddInt64(&lost, 1) == 1 {
+									first.Store(fmt.Sprintf("writer %d committed a=%d and %d bool columns = %v to each of its own %d rows and read them back at once (nobody else writes those rows) while the collection grew into block %d: row %d: %s", wi, tag, len(bools), odd, own, atomic.LoadInt64(&growths)%13+1, row, bad))
+								}
+								return nil
+							})
+						}
+						return nil
+					})
+				}
+			})
+		}
+		fns = append(fns, func() {
+			defer atomic.StoreInt32(&done, 1)
+			for blk := 1; blk <= 13; blk++ {
+				time.Sleep(3 * time.Millisecond)
+				for part := 0; part < 4; part++ {
+					c.Query(func(txn *column.Txn) error {
+						for i := 0; i < 4096; i++ {
+							txn.Insert(func(r column.Row) error { r.SetInt64("m", 1); return nil })
+						}
+						return nil
+					})
+				}
+				atomic.AddInt64(&growths, 1)
+			}
+		})
+		parallel(fns...)
+		c.Close()
+	}
+	w.Stat("own_row_readbacks_beside_growth", readbacks)
+	w.Stat("large_transactions_beside_growth", txns)
+	w.Stat("blocks_opened_beside_writers", growths)
+	w.Eval(hashOf("grow", idx, growths), readbacks > 100 && growths > 0)
+	if lost > 0 {
+		w.Violate(idx, caseID, fmt.Sprintf("[lost-update] %d of %d read-backs; first: %s", lost, readbacks, first.Load()), "", map[string]any{"idx": idx})
+	}
+}
